@@ -20,6 +20,9 @@
  *        dsh() runs in a forked child (it is a once-per-process function); the child's main-like
  *        wrapper does `return dsh (&opt)`, i.e. the exit status is the low 8 bits, as in main.c.
  *   xd e<code> | xd s<sig> | xd null -> "<ret>"      (exec_destroy of execcmd.c on a real child; exit_exec.c)
+ *   cmd S K HEX                      -> "<hex of the command string dsh() hands to rcmd_connect for its one target>"
+ *        (what the transport is asked to run when the user's command is HEX: with -S / -k the request for the
+ *        status marker must have been appended, otherwise an in-band transport can never report a failure)
  */
 #include "src/pdsh/dsh.c"
 
@@ -109,12 +112,20 @@ static void start_thread(void *(*fn)(void *), struct script *s)
     pthread_sigmask(SIG_SETMASK, &old, NULL);
 }
 
+static int cmd_report_fd = -1;      /* op `cmd`: where rcmd_connect reports the command it was given */
+
 int rcmd_connect(struct rcmd_info *rcmd, char *host, char *addr, char *locuser, char *remuser, char *cmd,
                  int nodeid, bool error_fd)
 {
     struct script *s = &scripts[nodeid];
     int pfd[2];
-    (void) host; (void) addr; (void) locuser; (void) remuser; (void) cmd; (void) error_fd;
+    (void) host; (void) addr; (void) locuser; (void) remuser; (void) error_fd;
+    if (cmd_report_fd >= 0 && cmd) {
+        if (write(cmd_report_fd, cmd, strlen(cmd)) < 0)
+            abort();
+        close(cmd_report_fd);
+        cmd_report_fd = -1;
+    }
     rcmd->arg = s;
     if (!s->connect_ok) {
         rcmd->fd = -1;
@@ -307,6 +318,68 @@ static void op_dsh(char *line)
     }
 }
 
+/* cmd S K HEX: one target that connects and ends at once; reports the command string dsh() asked the transport for */
+static void op_cmd(char *line)
+{
+    int S, K, consumed = 0, n, cp[2], status;
+    unsigned char *raw;
+    char *ucmd;
+    pid_t pid;
+    if (sscanf(line, "%d %d %n", &S, &K, &consumed) < 2) {
+        printf("bad-op\n");
+        return;
+    }
+    raw = unhex(line + consumed, &n);
+    ucmd = malloc(n + 1);
+    memcpy(ucmd, raw, n);
+    ucmd[n] = '\0';
+    memset(&scripts[0], 0, sizeof(scripts[0]));
+    scripts[0].wfd = -1;
+    scripts[0].connect_ok = 1;
+    scripts[0].out = calloc(1, 1);
+    nscripts = 1;
+    fflush(stdout);
+    if (pipe(cp) < 0)
+        abort();
+    pid = fork();
+    if (pid == 0) {
+        opt_t opt;
+        int devnull = open("/dev/null", O_RDWR);
+        close(cp[0]);
+        dup2(devnull, 0);
+        dup2(devnull, 1);
+        dup2(devnull, 2);
+        cmd_report_fd = cp[1];
+        memset(&opt, 0, sizeof(opt));
+        err_init("pdsh");
+        opt.progname = "pdsh";
+        opt.luser = "luser";
+        opt.ruser = "ruser";
+        opt.fanout = 1;
+        opt.connect_timeout = 10;
+        opt.labels = true;
+        opt.cmd = Strdup(ucmd);
+        opt.ret_remote_rc = S;
+        opt.kill_on_fail = K;
+        opt.wcoll = hostlist_create("h0");
+        exit(dsh(&opt) & 0xff);
+    }
+    close(cp[1]);
+    {
+        unsigned char buf[65536];
+        int len = 0, r;
+        while ((r = (int) read(cp[0], buf + len, sizeof(buf) - len)) > 0)
+            len += r;
+        close(cp[0]);
+        while (waitpid(pid, &status, 0) < 0 && errno == EINTR)
+            ;
+        puthex(buf, len);
+        printf("\n");
+    }
+    free(raw);
+    free(ucmd);
+}
+
 extern int harness_exec_destroy(const char *how);
 
 int main(int argc, char **argv)
@@ -325,6 +398,8 @@ int main(int argc, char **argv)
             op_dsh(line + 4);
         else if (strncmp(line, "xd ", 3) == 0)
             printf("%d\n", harness_exec_destroy(line + 3));
+        else if (strncmp(line, "cmd ", 4) == 0)
+            op_cmd(line + 4);
         else
             printf("bad-op\n");
         fflush(stdout);
